@@ -7,6 +7,7 @@
 package main
 
 import (
+	"encoding/json"
 	"fmt"
 	"net"
 	"net/http"
@@ -19,6 +20,9 @@ import (
 	"k8s.io/apiserver/pkg/authentication/serviceaccount"
 	"k8s.io/apiserver/pkg/authentication/user"
 	"k8s.io/apiserver/pkg/authorization/authorizer"
+
+	sarwebhook "github.com/kubewharf/kubegateway/pkg/gateway/authorization/webhook"
+	authorizationv1 "k8s.io/api/authorization/v1"
 
 	"verifh/e2e"
 	"verifh/ev"
@@ -382,6 +386,136 @@ func upgradeCase(c *ev.Check, w *world, auth ident, authz []string, impUser stri
 	}
 }
 
+// ------------------------------------------------------------------ the real authorizer and its decision cache
+// The product above scripts the authorizer. Here the gateway's own MultiClusterSubjectAccessReviewAuthorizer (with its
+// per-cluster decision cache, long TTL) sits in the chain and the stub upstream answers the SubjectAccessReviews from a
+// policy that depends on WHO asks: a permission to impersonate granted to one requestor must not be replayed for
+// another requestor who differs in name, groups or extra.
+
+type requestor struct {
+	label string
+	id    ident
+}
+
+var requestors = []requestor{
+	{"alice/E1", ident{"alice", []string{"dev", "system:authenticated"}, map[string][]string{"scopes": {"full"}}}},
+	{"alice/E2", ident{"alice", []string{"dev", "system:authenticated"}, map[string][]string{"scopes": {"read"}}}},
+	{"alice/no-extra", ident{"alice", []string{"dev", "system:authenticated"}, nil}},
+	{"alice/other-group", ident{"alice", []string{"ops", "system:authenticated"}, map[string][]string{"scopes": {"full"}}}},
+	{"alice2", ident{"alice2", []string{"dev", "system:authenticated"}, map[string][]string{"scopes": {"full"}}}},
+}
+
+// policies: which requestors the upstream's authorizer lets impersonate
+var sarPolicies = map[string]func(u string, groups []string, extra map[string][]string) bool{
+	"by extra": func(u string, g []string, e map[string][]string) bool {
+		return len(e["scopes"]) == 1 && e["scopes"][0] == "full"
+	},
+	"by group": func(u string, g []string, e map[string][]string) bool { return has(g, "dev") },
+	"by name":  func(u string, g []string, e map[string][]string) bool { return u == "alice" },
+	"all three": func(u string, g []string, e map[string][]string) bool {
+		return u == "alice" && has(g, "dev") && len(e["scopes"]) == 1 && e["scopes"][0] == "full"
+	},
+}
+
+func has(l []string, x string) bool {
+	for _, y := range l {
+		if y == x {
+			return true
+		}
+	}
+	return false
+}
+
+func realAuthorizer(c *ev.Check) {
+	var pnames []string
+	for n := range sarPolicies {
+		pnames = append(pnames, n)
+	}
+	sort.Strings(pnames)
+	for _, pn := range pnames {
+		allowed := sarPolicies[pn]
+		seqLen := c.Pick(2, 3)
+		var rec func(seq []int)
+		rec = func(seq []int) {
+			if len(seq) == seqLen {
+				runRealSeq(c, pn, allowed, seq)
+				return
+			}
+			for i := range requestors {
+				rec(append(append([]int{}, seq...), i))
+			}
+		}
+		rec(nil)
+	}
+}
+
+func runRealSeq(c *ev.Check, pn string, allowed func(string, []string, map[string][]string) bool, seq []int) {
+	w := &world{r: e2e.New(), up: e2e.NewUpstream("u1")}
+	defer func() { w.r.Close(); w.up.Close() }()
+	w.r.AddCluster(e2e.ClusterObject("c1", w.up), nil)
+	w.r.Real = sarwebhook.NewMultiClusterSubjectAccessReviewAuthorizer(w.r.Manager, time.Hour, time.Hour)
+	reviews := 0
+	w.up.Respond = func(rw http.ResponseWriter, r *http.Request, cap *e2e.Captured) {
+		if strings.HasSuffix(r.URL.Path, "/subjectaccessreviews") {
+			var sar authorizationv1.SubjectAccessReview
+			_ = json.Unmarshal(cap.Body, &sar)
+			extra := map[string][]string{}
+			for k, v := range sar.Spec.Extra {
+				extra[k] = []string(v)
+			}
+			reviews++
+			sar.Status = authorizationv1.SubjectAccessReviewStatus{Allowed: allowed(sar.Spec.User, sar.Spec.Groups, extra)}
+			if !sar.Status.Allowed {
+				sar.Status.Denied, sar.Status.Reason = true, "policy "+pn
+			}
+			rw.Header().Set("Content-Type", "application/json")
+			rw.WriteHeader(201)
+			_ = json.NewEncoder(rw).Encode(&sar)
+			return
+		}
+		rw.Header().Set("Content-Type", "application/json")
+		rw.WriteHeader(200)
+		_, _ = rw.Write([]byte("{}"))
+	}
+	var labels []string
+	for step, i := range seq {
+		q := requestors[i]
+		labels = append(labels, q.label)
+		c.Add("cases", 1)
+		c.Add("real_authorizer_requests", 1)
+		w.r.SetIdentity(&user.DefaultInfo{Name: q.id.name, Groups: q.id.groups, Extra: q.id.extra})
+		w.up.Requests()
+		resp, body, err := w.r.Do("GET", "c1", "/api/v1/namespaces/ns/pods", http.Header{"Impersonate-User": {"carol"}}, nil)
+		label := fmt.Sprintf("real authorizer, policy [%s], requestors in order %v (step %d)", pn, labels, step+1)
+		viol := func(key, f string, a ...interface{}) {
+			c.Violation("real-authorizer/"+key, label+": "+fmt.Sprintf(f, a...), map[string]interface{}{"policy": pn, "requestors": labels})
+		}
+		if err != nil {
+			viol("client-error", "%v", err)
+			return
+		}
+		want := allowed(q.id.name, q.id.groups, q.id.extra)
+		var proxied []*e2e.Captured
+		for _, r := range w.up.Requests() {
+			if !strings.HasSuffix(r.Path, "/subjectaccessreviews") {
+				proxied = append(proxied, r)
+			}
+		}
+		c.Outcome("outcomes", fmt.Sprintf("real/%s/%v/%d", pn, want, resp.StatusCode))
+		if want {
+			if len(proxied) != 1 || proxied[0].Header.Get("Impersonate-User") != "carol" {
+				viol("allowed-impersonation-not-forwarded", "%s may impersonate carol, but the request was answered %d %s (upstream saw %d requests)", q.label, resp.StatusCode, trunc(body), len(proxied))
+			}
+		} else {
+			if len(proxied) != 0 {
+				viol("forwarded-despite-refusal", "%s is NOT allowed to impersonate by the target cluster, yet the request was forwarded as %q (a decision obtained for another requestor was replayed; reviews sent so far: %d)", q.label, proxied[0].Header.Get("Impersonate-User"), reviews)
+			} else if resp.StatusCode != 403 {
+				viol("wrong-refusal-status", "answered %d, expected 403", resp.StatusCode)
+			}
+		}
+	}
+}
+
 func trunc(b []byte) string {
 	if len(b) > 120 {
 		b = b[:120]
@@ -496,11 +630,13 @@ func main() {
 			}
 		}
 	}})
+	tasks = append(tasks, ev.Task{Name: "real-authorizer", Run: func() { realAuthorizer(c) }})
 	c.RunTasks(tasks)
 	c.Finish(map[string]interface{}{
-		"upgrade_cases":       c.Counter("upgrade_cases"),
-		"evaluations":         c.Counter("cases"),
-		"distinct_nontrivial": c.DistinctCount("outcomes"),
-		"rule":                "authenticated identity (7 names incl. spaces, UTF-8, percent, comma x 5 group lists x 6 extra maps) fully; the product of client headers Authorization (3) x Impersonate-User (4) x Impersonate-Group (6, incl. an empty first value) x Impersonate-Extra-* (4) x other Impersonate-* members / Connection headers naming identity headers (7) x authorizer behaviour (6: allow, deny/err the k-th check) with canonical header names (all three casings in the thorough tier), plus identity x impersonation and casing x impersonation pairs; and the upgrade path (SPDY exec): identities, and Authorization x Impersonate-User x Impersonate-Group x others x {allow, deny 1st, deny 2nd}. Distinct = (gateway answer class, which header families were present).",
+		"real_authorizer_requests": c.Counter("real_authorizer_requests"),
+		"upgrade_cases":            c.Counter("upgrade_cases"),
+		"evaluations":              c.Counter("cases"),
+		"distinct_nontrivial":      c.DistinctCount("outcomes"),
+		"rule":                     "authenticated identity (7 names incl. spaces, UTF-8, percent, comma x 5 group lists x 6 extra maps) fully; the product of client headers Authorization (3) x Impersonate-User (4) x Impersonate-Group (6, incl. an empty first value) x Impersonate-Extra-* (4) x other Impersonate-* members / Connection headers naming identity headers (7) x authorizer behaviour (6: allow, deny/err the k-th check) with canonical header names (all three casings in the thorough tier), plus identity x impersonation and casing x impersonation pairs; and the upgrade path (SPDY exec): identities, and Authorization x Impersonate-User x Impersonate-Group x others x {allow, deny 1st, deny 2nd}. Distinct = (gateway answer class, which header families were present).",
 	})
 }
